@@ -8,6 +8,7 @@ under every clock.
 from .. import specgen as sg
 from .. import monitors as M
 from .. import world
+from .. import units
 from ..core import Result
 from ..ref.discrete import eval_discrete, RefError
 from . import common
@@ -27,7 +28,7 @@ ASSUMPTIONS = ['RefDiscrete (sim/ref/discrete.py) is the README definition; prev
 REAL = common.REAL_ALL
 STUBS = common.STUBS_ALL
 PROBES = ['integer_samples_above_2^53', 'one_sample_trace', 'window_longer_than_trace', 'result_starts_with_inf', 'same_name_twice', 'negative_literal',
-          'combined_class', 'declared_constant', 'declared_number_with_more_than_6_digits']
+          'combined_class', 'declared_constant', 'declared_number_with_more_than_6_digits', 'configured_unit_and_period']
 
 PRECISE = [1.2345678, 0.1234567891, 3.14159265, 1234567.25, 0.30000000000000004, 2.0000001]
 
@@ -48,7 +49,16 @@ def gen(rng, tier):
         rng.shuffle(lits)
         for i, v in enumerate(lits[:rng.randint(1, 2)]):
             consts.append(['k%d' % (i + 1), v, rng.choice(['number', 'text'])])
-    text = 'out = ' + sg.to_text(common.consts_to_refs(ast, consts), sg.Spelling(rng)) + (';' if rng.random() < 0.8 else '')
+    notation = None
+    if rng.random() < 0.2:
+        # a configured default unit / sampling period: the bounds (in samples) are written in that notation
+        notation = units.gen_notation(rng, p_plain=0.0)
+    try:
+        text = 'out = ' + sg.to_text(common.consts_to_refs(ast, consts), sg.Spelling(rng),
+                                     units.bounds_printer(notation, rng) if notation else None) + (';' if rng.random() < 0.8 else '')
+    except ValueError:
+        notation = None
+        text = 'out = ' + sg.to_text(common.consts_to_refs(ast, consts), sg.Spelling(rng)) + (';' if rng.random() < 0.8 else '')
     n = rng.choice([1, 1, 2, 2, 3, 4, 5, 6, 8, 10, 12] + ([16, 20, 24] if big else []))
     data = world.gen_trace(rng, vars_, n, p_bigint=0.06)
     clocks = [world.perfect_clock(n)]
@@ -69,7 +79,11 @@ def gen(rng, tier):
     # a re-configured object: it was used with spec.unit = 'ms' and a 1 ms period, then only the unit is set to 's'
     # (every unit-less bound now means 1000 samples)
     reunit = rng.random() < 0.08 and not any(x[0] in sg.TBIN for x in sg.walk(ast)) and not consts
-    return {'reunit': reunit, 'vars': vars_, 'ast': ast, 'text': text, 'n': n, 'data': data, 'clocks': clocks, 'fired': fired,
+    if notation:
+        clocks = [units.stamps(notation, n)]      # (faulty clocks are generated for a 1 s period only)
+        reunit = False
+        second = None
+    return {'notation': notation, 'reunit': reunit, 'vars': vars_, 'ast': ast, 'text': text, 'n': n, 'data': data, 'clocks': clocks, 'fired': fired,
             'cls': cls, 'order': order, 'consts': consts, 'second': second}
 
 
@@ -88,6 +102,9 @@ def run(sc):
     text = common.text_of(sc) if sc.get('text') else 'out = ' + sg.to_text(common.consts_to_refs(ast, consts)) + ';'
     desc = {'cls': sc.get('cls', 'dt_off'), 'vars': common.var_decls(sc['vars']), 'spec': text,
             'consts': [[k, 'float', (v if how == 'number' else sg.fmt_num(v))] for k, v, how in consts]}
+    if sc.get('notation') and sc.get('text'):
+        desc.update(units.spec_config(sc['notation']))
+        r.probes['configured_unit_and_period'] += 1
     if consts:
         r.probes['declared_constant'] += 1
         if any(how == 'number' and ('%g' % v) != repr(float(v)) and float('%g' % v) != v for k, v, how in consts):
